@@ -230,7 +230,8 @@ func forwardRound(t *testing.T, round int, rng *mrand.Rand, mode string, dir str
 	names := Names()
 	rng.Shuffle(len(names), func(i, j int) { names[i], names[j] = names[j], names[i] })
 	keys := names[:2+rng.Intn(2)]
-	fin := waitOrDump(t, "forward", 90*time.Second, func() {
+	fin := waitOrDump(t, "forward", 240*time.Second, func() {
+		stormMode.Store(false)
 		// in the middle of caller 1 of connection 1: the first forwarded channel is closed (that server only ends)
 		runCallers(t, lg, rng, eps, keys, 2, 5, false, func() {
 			lg.Close(1)
